@@ -76,13 +76,18 @@ PaddedSize(p, size) == LET d == PadDims(p, size) IN <<d[1] + size[1] + d[3], d[2
 Frames == 0..(N - 1)
 EmptyCache == [f \in Frames |-> <<>>]
 
-InitStates ==
-  {[closed |-> FALSE, dropped |-> FALSE, loop |-> IF Definite THEN l ELSE 1, off |-> 0,
+\* a fresh iterator: l loops, caching decided as c, render data owned by o
+InitState(l, c, o) ==
+   [closed |-> FALSE, dropped |-> FALSE, loop |-> IF Definite THEN l ELSE 1, off |-> 0,
     pend |-> IF Definite THEN NoPend ELSE InitPend, pos |-> 0,
     size |-> <<2, 1>>, dur |-> 50, args |-> "a0", pad |-> NoPad,
     cached |-> (Definite /\ c), cache |-> IF Definite /\ c THEN EmptyCache ELSE <<>>,
-    own |-> o, fin |-> 0, loops |-> IF Definite THEN l ELSE 1, term |-> <<TW, TH>>] :
-     l \in LoopsSet, c \in CacheSet, o \in OwnSet}
+    own |-> o, fin |-> 0, loops |-> IF Definite THEN l ELSE 1, term |-> <<TW, TH>>]
+InitStates == {InitState(l, c, o) : l \in LoopsSet, c \in CacheSet, o \in OwnSet}
+
+\* The cache decision of RenderIterator(..., cache=arg): arg is a bool ([kind |-> "bool", b]) or
+\* a limit ([kind |-> "int", n]): "enabled if True or frame_count <= limit"; never for INDEFINITE
+CacheRequested(arg) == Definite /\ (IF arg.kind = "bool" THEN arg.b ELSE N <= arg.n)
 
 (* ---------------------------------------------------------------------- *)
 (* closing                                                                 *)
@@ -200,6 +205,13 @@ Resize == \E z \in Terms \ {s.term} : Do([name |-> "resize", v |-> z], DoResize(
 \* render arguments of an unrelated render class ("incompatible") and of a CHILD class of the
 \* renderable's class ("child") are both incompatible: only the class itself and its ancestors
 Incompat == {"incompatible", "child"}
+\* Render-argument VALUES are opaque here and compared BY VALUE (the cache key below, FrameRes).
+\* The binding gives every set_render_args() a NEW RenderArgs object, so "equal" never means
+\* "identical".  Hashability of render arguments is optional ("hashable iff the constituent
+\* namespaces are"): the values named here hold a list resp. a dict in a field - perfectly legal
+\* arguments that cannot be hashed.  They obey exactly the same laws as every other value: the
+\* cache may not need anything but equality of the arguments (C09, round 7).
+ArgsUnhashable == {"a4", "a5"}
 SetArgs == \E a \in ArgsSet \cup Incompat :
              Do([name |-> "set_render_args", v |-> a],
                 DoSet(s, "args", a, a \notin Incompat, "IncompatibleRenderArgsError"))
@@ -257,6 +269,11 @@ FrameMatchesSettings ==
 NoRerender ==
   [][(IsOp("next") /\ out'.r.res = "frame" /\ Definite /\ s.cached
         /\ Wrapped(s).cache[NextFrame(s)] = <<s.size, s.dur, s.args>>) => ~out'.r.rendered]_vars
+\* C09: arguments are compared by value - setting arguments EQUAL to the current ones (a new,
+\* possibly unhashable, object) changes nothing, in particular it invalidates no cache entry
+\* and it never fails
+EqualArgsChangeNothing ==
+  [][(IsOp("set_render_args") /\ out'.op.v = s.args /\ ~s.closed) => s' = s /\ out'.r.res = "ok"]_vars
 \* after exhaustion / close / error: closed, next() stops, control operations raise
 ClosedIsTerminal == [][s.closed => s'.closed /\ s'.fin = s.fin]_vars
 \* loop only ever decreases, by one, at a wrap; reaches 0 exactly at exhaustion
